@@ -89,4 +89,52 @@ pub(crate) mod verif_rig_style {
     pub(crate) fn no_format_state(_s: &ProgressStyle, _st: &ProgressState, _l: &mut Vec<LineType>, _w: u16) {
         panic!("verif: format_state reached although the draw target is hidden")
     }
+
+    // ---- recording stand-in for ProgressStyle::format_state (assume-guarantee): harnesses about WHEN a frame is drawn and
+    //      from WHICH state (BarState::{draw,println,finish_using_style,drop}) do not re-execute the template engine (which
+    //      costs CBMC > 15 minutes per call even for an unknown key); they record the state format_state is handed and
+    //      contribute one bar line. What format_state renders from a state is decided by C10-C13 (and C11, thorough tier).
+    pub(crate) static mut FS_CALLS: usize = 0;
+    pub(crate) static mut FS_POS: u64 = 0;
+    pub(crate) static mut FS_LEN: Option<u64> = None;
+    pub(crate) static mut FS_FINISHED: bool = false;
+    pub(crate) static mut FS_MSG0: u8 = 0; // first byte of the message (0 = empty)
+    pub(crate) static mut FS_MSG_LEN: usize = 0;
+    pub(crate) static mut FS_TICK: u64 = 0;
+    pub(crate) fn recording_format_state(_s: &ProgressStyle, st: &ProgressState, lines: &mut Vec<LineType>, _w: u16) {
+        unsafe {
+            FS_CALLS += 1;
+            FS_POS = st.pos();
+            FS_LEN = st.len();
+            FS_FINISHED = st.is_finished();
+            // the original text, read without expanding tabs (expanded() allocates a string of symbolic size)
+            let m = match &st.message {
+                TabExpandedString::NoTabs(s) => s.as_bytes(),
+                TabExpandedString::WithTabs { original, .. } => original.as_bytes(),
+            };
+            FS_MSG0 = if m.is_empty() { 0 } else { m[0] };
+            FS_MSG_LEN = m.len();
+            FS_TICK = st.tick;
+        }
+        lines.push(LineType::Bar(String::from("B")));
+    }
+
+    /// every tab-carrying template literal of `st` is set to expand with `tw`, and so is the style itself (custom keys)
+    pub(crate) fn style_tab_width_is(st: &ProgressStyle, tw: usize) -> bool {
+        let mut ok = st.tab_width == tw;
+        let mut i = 0;
+        while i < 4 {
+            if i < st.template.parts.len() {
+                if let TemplatePart::Literal(TabExpandedString::WithTabs { tab_width, .. }) = &st.template.parts[i] {
+                    ok &= *tab_width == tw;
+                }
+            }
+            i += 1;
+        }
+        ok
+    }
+
+    pub(crate) fn tab_rewriter<'a>(w: &'a mut dyn fmt::Write, tw: usize) -> TabRewriter<'a> {
+        TabRewriter(w, tw)
+    }
 }
